@@ -1910,8 +1910,8 @@ def rule_buffer(px):
 # memo slot on the node.  They are interpreted (sC50.PyEval, nothing is imported or run) on EVERY labelled epsilon graph with
 # up to EPS_N nodes (no self loops), the nodes being built with the interpreted Machines.Node and linked with the interpreted
 # link_to.  Sets of nodes are iterated in label order; since every labelling of every graph is in the domain, every pair
-# (graph shape, iteration order of its successor sets) is covered - CPython iterates such sets in address order, so each of
-# these orders can occur.  Because closures are memoised on the nodes, every ORDER of requests matters: each graph is
+# (graph shape, total order of its states in which all successor sets are visited) is covered - CPython iterates such sets in
+# an order derived from the node addresses (Node.__hash__), so each of these orders can occur.  Because closures are memoised on the nodes, every ORDER of requests matters: each graph is
 # evaluated for every permutation of its nodes (the per-state function first and the per-set function first), and every
 # request is repeated at the end (a later request must not change an earlier answer).
 EPS_N = 3
@@ -2155,7 +2155,7 @@ def add_to(state_set, state):
 
 def rule_epsclosure(px):
     r = Rule('C50-EPS', 'the epsilon-closure functions nfa_to_dfa uses return exactly the states reachable by epsilon moves: on every epsilon graph on %d states for every '
-             'iteration order of the successor sets and every order of the (memoised) requests, and on every graph on %d states with at most %d moves reachable from its '
+             'total order in which the successor sets are visited and every order of the (memoised) requests, and on every graph on %d states with at most %d moves reachable from its '
              'first state' % (EPS_N, EPS_N_WIDE, EPS_WIDE_EDGES), floor=2)
     pm = px.model()
     fns, funcs = closure_entry_points(px)
